@@ -3,6 +3,7 @@ mod c11;
 mod c15;
 mod c16;
 mod c17;
+mod c18;
 mod world;
 mod rules;
 mod ir;
@@ -73,6 +74,8 @@ fn main() {
         "C09" => dp::run_c09(&outdir, seed, thorough),
         "C16" => c16::run(&outdir, seed, thorough),
         "C17" => c17::run(&outdir, seed, thorough),
+        "C18" => c18::run(&outdir, seed, thorough),
+        p if p.starts_with("C18@") => c18::child(p[4..].parse().unwrap(), &outdir, seed, thorough),
         "GEN-DIALECTS" => { c17::generate(&outdir); return; }
         "C04" => dp::run_c04(&outdir, seed, thorough),
         "GEN-FNMETA" => { if let Err(e) = c14::generate(&outdir) { eprintln!("{}", e); std::process::exit(1); } return; }
